@@ -245,6 +245,43 @@ def rust_file(rel):
     return _files[p]
 
 
+def expand_macro(rf, invocation):
+    """`name!(a, b, c)` -> (RustFile over the expansion of the macro's single arm, line offset of the invocation, note)"""
+    m = re.match(r'([A-Za-z_][A-Za-z0-9_]*)!\s*\((.*)\)\s*$', invocation, flags=re.S)
+    if not m:
+        raise RustSrcError(f"bad macro scope `{invocation}`")
+    name, args = m.group(1), [a.strip() for a in m.group(2).split(',') if a.strip()]
+    msk = rf.msk
+    d = re.search(r'\bmacro_rules!\s*' + re.escape(name) + r'\s*\{', msk)
+    if not d:
+        raise RustSrcError(f"{rf.path}: macro_rules! {name} not found")
+    dopen = d.end() - 1
+    dclose = match_brace(msk, dopen)
+    inner = msk[dopen + 1:dclose]
+    po = inner.find('(')
+    if po < 0:
+        raise RustSrcError(f"{rf.path}: macro {name}: no arm")
+    pc = match_brace(inner, po)
+    params = re.findall(r'\$([a-z_][A-Za-z0-9_]*)\s*:\s*ident', inner[po:pc + 1])
+    arrow = inner.find('=>', pc)
+    bo = inner.find('{', arrow)
+    bc = match_brace(inner, bo)
+    if inner[bc + 1:].strip().strip(';').strip():
+        raise RustSrcError(f"{rf.path}: macro {name} has more than one arm (unsupported)")
+    body = rf.src[dopen + 1 + bo + 1:dopen + 1 + bc]
+    if len(params) != len(args):
+        raise RustSrcError(f"{rf.path}: macro {name} takes {len(params)} identifiers, invocation gives {len(args)}")
+    inv = re.compile(r'\b' + re.escape(name) + r'!\s*\(\s*' + r'\s*,\s*'.join(re.escape(a) for a in args) + r'\s*,?\s*\)\s*;')
+    hits = list(inv.finditer(msk))
+    if len(hits) != 1:
+        raise RustSrcError(f"{rf.path}: invocation {name}!({', '.join(args)}) found {len(hits)} times")
+    for pname, a in zip(params, args):
+        body = re.sub(r'\$' + pname + r'\b', a, body)
+    if '$' in mask(body):
+        raise RustSrcError(f"{rf.path}: macro {name}: unexpanded metavariable")
+    return RustFile(rf.path + '#' + invocation, text=body), rf.line_of(hits[0].start()) - 1, f"{name}!({', '.join(args)}) at line {rf.line_of(hits[0].start())}, definition at line {rf.line_of(d.start())}"
+
+
 def count_ok(want, got):
     if want == '*':
         return True
@@ -255,18 +292,28 @@ def count_ok(want, got):
 
 def render_extract(ex, report, vacuity=False):
     rf = rust_file(ex.relpath)
+    line_base = 0
+    macro_note = None
     try:
-        if ex.kind == 'fn':
+        if ex.kind == 'fn' and (ex.scope or '').startswith('macro '):
+            # R24: a function generated by a `macro_rules!` invocation — the macro's single arm is expanded textually with the
+            # invocation's arguments (both taken from the repository file), then treated like any other function
+            rf, line_base, macro_note = expand_macro(rf, ex.scope[len('macro '):].strip())
+            it = rf.find_fn(None, ex.name)
+        elif ex.kind == 'fn':
             it = rf.find_fn(ex.scope, ex.name)
         else:
             it = rf.find_item(ex.kind, ex.name)
     except RustSrcError as e:
         raise AnchorLost(str(e))
     text = rf.src[it.start:it.end]
-    first_line = rf.line_of(it.start)
+    first_line = rf.line_of(it.start) + line_base
     sha = hashlib.sha256(text.encode()).hexdigest()[:16]
     fid = f"{ex.relpath}::{ex.scope or '-'}::{ex.kind} {ex.name}"
-    rep = {'item': fid, 'repo_lines': [first_line, rf.line_of(it.end - 1)], 'sha256_16': sha, 'rewrites': {}}
+    rep = {'item': fid, 'repo_lines': [first_line, rf.line_of(it.end - 1) + line_base], 'sha256_16': sha, 'rewrites': {}}
+    if macro_note:
+        rep['rewrites']['R24 macro-expansion'] = 1
+        rep['macro'] = macro_note
     report.append(rep)
 
     if ex.kind != 'fn':
